@@ -562,8 +562,39 @@ func c05Program(p *prog, steps int) {
 			c05SubList(p, l, start, end)
 		case op < 90:
 			c05Concat(p, l, ls[r.Intn(len(ls))])
-		case op < 94:
+		case op < 92:
 			c05NewList(p)
+		case op < 94:
+			// tree-form leaf write / unset on the list itself
+			idx := boundaryIndex(r, n)
+			if idx < 0 {
+				idx = n
+			}
+			if idx > n+4 {
+				idx = n + 4
+			}
+			if r.Chance(2, 3) {
+				v := p.anyVal(l, 2)
+				p.step("SetTF", fmt.Sprintf("%s.SetTF(\"#%d\", %s) [n=%d]", l.Name(), idx, v, n), false, func() {
+					if idx >= n {
+						for len(l.E) < idx {
+							l.E = append(l.E, model.Nil())
+						}
+						l.E = append(l.E, v)
+					} else {
+						l.E[idx] = v
+					}
+					l.List().SetTF(fmt.Sprintf("#%d", idx), h.Arg(v))
+				})
+			} else {
+				want := idx >= n
+				p.step("UnsetTF", fmt.Sprintf("%s.UnsetTF(\"#%d\") [n=%d]", l.Name(), idx, n), want, func() {
+					if !want {
+						l.E = append(l.E[:idx:idx], l.E[idx+1:]...)
+					}
+					l.List().UnsetTF(fmt.Sprintf("#%d", idx))
+				})
+			}
 		default:
 			// mutate a nested container through an alias: an object by Set, or a nested list by Add
 			if os := p.objects(); len(os) > 0 && r.Bool() {
